@@ -513,6 +513,16 @@ func runC03(c c03Case) *vlib.Outcome {
 					o.Label("refused-no-terms")
 					continue
 				}
+				// a script that reads a null-bound variable sees it as
+				// undefined and binds nothing, so that a later script may
+				// meet an undefined variable: not specified (see evalFlags)
+				fl := &evalFlags{}
+				ref.eval(c.Query, []refmatch.Bindings{{}}, refmatch.Strict, fl)
+				ref.eval(c.Query, []refmatch.Bindings{{}}, refmatch.Lenient, fl)
+				if fl.nullInScript {
+					o.Label("null-binding-in-script")
+					continue
+				}
 				o.Fail("QUERY_ERROR", "%s: Query failed: %v", when, err)
 				return o
 			}
